@@ -124,6 +124,27 @@ def snippet_prefixes():
     return out
 
 
+def snippet_deletions():
+    """every snippet with one token left out (every position), at file level and inside a function
+    body: 'one word of X is not typed yet' for every X"""
+    out = []
+    for sn in SNIPPETS:
+        for ctx, tail in (("%s", "\n"), ("int\tf(void)\n{\n\t%s", "\n}\n")):
+            full = ctx % sn
+            body_start = len(ctx) - 2
+            spans = token_spans(full)
+            if not spans:
+                continue
+            for a, b in spans:
+                if a < body_start or full[a:b] in (" ", "\t", "\n"):
+                    continue
+                out.append(("delete", full[:a] + full[b:] + tail))
+    return out
+
+
+# white space that is not blank, tab or newline (str.isspace), signs a decoder can leave behind
+EXOTIC = ["\f", "\v", "\r", "\r\n", "\x1c", "\x1f", "\x85", "\xa0", "\u2028", "\u3000", "\ufeff", "\x00", "\x7f", "\u200b"]
+
 SOUP = ["int", "char", "\t", " ", "a", "b", ",", ";", "(", ")", "{", "}", "\n", "*", "=", "1", "[", "]", "#define", "#if", "#endif", "if", "else",
         "return", "struct", "typedef", "\"s\"", "?", ":", "->", "while", "static", "/* c */", "// c", "enum", "&&", "-", "sizeof", "#include",
         "<a.h>", "...", "t_x", "'c'", "const", "void", "+", "++", "do", "goto", "union", "#ifndef", "#ifdef", "#undef", "#else", "#elif",
@@ -149,6 +170,16 @@ def soup(rng, maxlen_exhaustive, nsample, maxlen_sample):
     for _ in range(nsample):
         out.append(render([rng.choice(SOUP) for _ in range(rng.randint(maxlen_exhaustive + 1, maxlen_sample))]))
     res = []
+    # the same with a character no C token starts with, at every gap of a few of them
+    for t in out[:: 11]:
+        ws = [i for i, ch in enumerate(t) if ch in " \t\n"] or [0]
+        k = rng.choice(ws)
+        x = rng.choice(EXOTIC)
+        res.append(("soup-exotic", t[:k] + x + t[k:]))
+    for x in EXOTIC:
+        res.append(("exotic", "int\ta;" + x + "\nint\tb;\n"))
+        res.append(("exotic", x))
+        res.append(("exotic-body", "int\tf(void)\n{\n\treturn (0);" + x + "\n}\n" + x + "\nint\tg(void);\n"))
     for t in out:
         res.append(("soup", t))
     for t in out[:: 7]:
